@@ -769,9 +769,11 @@ def check_affine_ops(ctx: Ctx, view: View) -> None:
     rc = rules.self_calls(f, "round_vect")
     ctx.need(len(rc) == 1, "unnormalize_vect: round_vect call not found")
     rn = cfg.node_of(rc[0])
-    conds = [(t, v) for (t, v), b in cfg.branch.items() if cfg.dominates(b, rn)]
-    ok = len(conds) == 1 and conds[0][1] and isinstance(cfg.ast[conds[0][0]].test, ast.UnaryOp) and attr_is(cfg.ast[conds[0][0]].test.operand, "__no_integer")
-    ctx.ob("2.7-round", con, ok, "unnormalize_vect must round integer components iff the space has integer variables", node=rc[0])
+    from gv.props.shared import literal_facts
+
+    facts = literal_facts(cfg, rn)
+    ok = facts.get("self.__no_integer") is False and facts.get("minus_lb") is True and set(facts) <= {"self.__no_integer", "minus_lb"}
+    ctx.ob("2.7-round", con, ok, f"unnormalize_vect must round the integer components of a POINT (minus_lb true) iff the space has integer variables; with minus_lb false the vector is a gradient (normalize_grad) and rounding it destroys the derivative w.r.t. integer variables (rounding happens under {facts})", node=rc[0], stmt="round iff (integers and minus_lb)")
     shn = [cfg.node_of(s) for s in comp_ops(f)[0]]
     ok = all(cfg.reachable(s, rn) and not cfg.reachable(rn, s) for s in shn)
     ctx.ob("2.7-round", con, ok, "rounding must come after the affine map", node=rc[0], stmt="round after scale/shift")
@@ -811,6 +813,33 @@ def check_conversions(ctx: Ctx, view: View) -> None:
 
     g = ctx.index.func("utils/data_conversion.py", "split_array_to_dict_of_arrays")
     check_cursor_loops(ctx, "2.9-cursor", cname("utils/data_conversion.py", None, "split_array_to_dict_of_arrays"), g, min_loops=1)
+
+
+def check_inputs_untouched(ctx: Ctx) -> None:
+    """2.9: the maps never write into the vector they are given (they work on a copy or on `out`)."""
+    from gv.purity import impure_writes
+
+    ds = ctx.index.cls(DSF, "DesignSpace")
+    for m in ("normalize_vect", "unnormalize_vect", "transform_vect", "untransform_vect", "normalize_grad", "unnormalize_grad", "project_into_bounds"):
+        for cls in [ds, *ctx.index.subclasses(ds)]:
+            f = cls.methods.get(m)
+            if f is None:
+                continue
+            p0 = [a.arg for a in f.args.args if a.arg != "self"][0]
+            res, sites = impure_writes(f, {p0})
+            con = cname(cls.module.relpath, cls.qualname, m)
+            for node, p_, what in res:
+                ctx.ob("2.9-input-untouched", con, False, f"{m}: {what}: the caller's vector is modified (and an `out` array, if any, is not filled)", node=node, stmt=f"{norm_stmt(node, 70)} [{p_}]")
+            if not res:
+                ctx.ob("2.9-input-untouched", con, True, "", node=f, stmt=f"{sites} in-place site(s) examined, none reaches {p0}")
+    # round_vect(copy=True) works on a copy
+    from gv.shapes import specialise
+
+    f = ds.methods["round_vect"]
+    g = specialise(f, {"copy": True})
+    res, sites = impure_writes(g, {[a.arg for a in f.args.args if a.arg != "self"][0]})
+    ctx.ob("2.9-input-untouched", cname(DSF, "DesignSpace", "round_vect"), not res and sites >= 1, "round_vect(copy=True) must round a copy of the vector" + (f": {res[0][2]}" if res else ""), node=(res[0][0] if res else f), stmt="with copy=True no write reaches the input")
+    ctx.floor("2.9-input-untouched", 7)
 
 
 def check_view_selection(ctx: Ctx) -> None:
@@ -854,6 +883,7 @@ def check_view_selection(ctx: Ctx) -> None:
 def run(ctx: Ctx) -> None:
     ds = ctx.index.cls(DSF, "DesignSpace")
     check_view_selection(ctx)
+    check_inputs_untouched(ctx)
     view = View(ctx, ds)
     check_coupdate(ctx, view)
     check_protocols(ctx, view)
@@ -877,6 +907,9 @@ def run(ctx: Ctx) -> None:
 
 # ---------------------------------------------------------------------------
 WITNESSES = [
+    {"name": "gradient-rounded-like-a-point", "file": DSF, "old": "        if minus_lb and not self.__no_integer:\n            self.round_vect(out, copy=False)", "new": "        if not self.__no_integer:\n            self.round_vect(out, copy=False)", "expect": "2.7"},
+    {"name": "out-buffer-rebound-to-the-input", "file": DSF, "old": "        else:\n            out[...] = x_vect\n\n        # Unnormalize the relevant components:", "new": "        else:\n            out *= 0\n            out = x_vect\n\n        # Unnormalize the relevant components:", "expect": "2.9"},
+    {"name": "normalize-in-place-on-the-input", "file": DSF, "old": "        if out is None:\n            out = x_vect.copy()\n        else:\n            out[...] = x_vect\n\n        # Normalize the relevant components:", "new": "        out = x_vect\n\n        # Normalize the relevant components:", "expect": "2.9"},
     {"name": "cached-vector-for-a-subset", "file": DSF, "old": "        if self.__norm_data_is_computed and not variable_names and not as_dict:", "new": "        if self.__norm_data_is_computed and not as_dict:", "expect": "2.3"},
     {"name": "cached-vector-without-validity", "file": DSF, "old": "        if self.__norm_data_is_computed and not variable_names and not as_dict:", "new": "        if not variable_names and not as_dict:", "expect": "2.3"},
     {"name": "whole-dictionary-for-a-subset", "file": DSF, "old": "        if not variable_names:\n            return value_as_dict\n\n        return {name: value_as_dict[name] for name in variable_names}", "new": "        return value_as_dict", "expect": "2.3"},
